@@ -18,7 +18,7 @@ def part_of(what):
         return "manifest-edit/" + what.split(":", 1)[1].strip().replace(" ", "-")
     if what.startswith("enveloped:"):
         return "hostile-tar/" + what.split(":", 1)[1].strip().replace(" ", "-")
-    return what.split("@")[0].replace(" ", "-")
+    return re.sub(r"-?\d+(-of-\d+)?", "", what.split("@")[0].replace(" ", "-")).strip("-").replace("--", "-")
 
 
 def classify(ev):
@@ -33,6 +33,7 @@ def classify(ev):
 
 def run(ctx):
     quick = ctx.tier == "quick"
+    ctx.level = "fault_enumeration"
     ctx.assumptions += ["TLC 1.8.0 + CommunityModules", "artefacts (dump directory, tar, encrypted archive, key files) are built by the real writers from "
                         "a 3-node / 2-relationship database per codec", "class of a tampered byte is decided by what protects it: strict = fragment bytes, "
                         "any archive byte, a manifest change that alters the fields the loader consumes; lenient = manifest bytes outside them",
